@@ -96,10 +96,37 @@ func c03Pattern(c *sim.Ctx, depth int) interface{} {
 			}
 		}
 		return a
+	case k == 8 && c.Bool("choosethenindex"):
+		// a variable bound in several ways by an array, then used as the property variable of
+		// another part of the pattern: every alternative has to look up its own property
+		v := []string{"?k", "?x"}[c.Intn(2, "ctivar")]
+		var val interface{} = "?v"
+		if c.Chance(1, 3, "ctisame") {
+			val = v
+		}
+		return map[string]interface{}{"a": []interface{}{v}, "b": map[string]interface{}{v: val}}
 	case k == 8:
 		return c03Var(c)
 	}
 	return c03Sub(c)
+}
+
+// c03ChooseThenIndex recognises the pattern family above.
+func c03ChooseThenIndex(p map[string]interface{}) bool {
+	pa, ok := p["a"].([]interface{})
+	if !ok || len(pa) != 1 || len(p) != 2 {
+		return false
+	}
+	v, ok := pa[0].(string)
+	if !ok || !strings.HasPrefix(v, "?") {
+		return false
+	}
+	pb, ok := p["b"].(map[string]interface{})
+	if !ok || len(pb) != 1 {
+		return false
+	}
+	_, ok = pb[v]
+	return ok
 }
 
 func c03PatVal(c *sim.Ctx, depth int) interface{} {
@@ -113,6 +140,14 @@ func c03PatVal(c *sim.Ctx, depth int) interface{} {
 func c03Message(c *sim.Ctx, pat interface{}, depth int) interface{} {
 	switch p := pat.(type) {
 	case map[string]interface{}:
+		if depth == 0 && c03ChooseThenIndex(p) {
+			keys := [][]interface{}{{"x", "y"}, {"x", "y", "z"}, {"y"}}[c.Intn(3, "ctikeys")]
+			b := map[string]interface{}{}
+			for i, k := range keys {
+				b[k.(string)] = []interface{}{1.0, 2.0, "x", "q"}[(i+c.Intn(4, "ctival"))%4]
+			}
+			return map[string]interface{}{"a": append([]interface{}{}, keys...), "b": b}
+		}
 		m := map[string]interface{}{}
 		for k, v := range sortedItems(p) {
 			_ = k
